@@ -221,20 +221,37 @@ def ensure_driver(pid):
 
 
 def lean_sources_for(pid):
-    srcs = []
-    for root, _, fs in os.walk(LEAN_DIR):
-        if ".lake" in root:
+    """our Lean sources that the theorem module of `pid` (and its driver) transitively import;
+    all of them when pid is None"""
+    if pid is None:
+        srcs = []
+        for root, _, fs in os.walk(LEAN_DIR):
+            if ".lake" in root or ".audit" in root:
+                continue
+            srcs += [os.path.join(root, f) for f in fs if f.endswith(".lean")]
+        return srcs
+    todo = ["QEProofs.Properties.%s" % pid, "QEModel.%s" % pid, "Drivers.%s" % pid]
+    seen, srcs = set(), []
+    while todo:
+        m = todo.pop()
+        if m in seen:
             continue
-        for f in fs:
-            if f.endswith(".lean"):
-                srcs.append(os.path.join(root, f))
+        seen.add(m)
+        fp = os.path.join(LEAN_DIR, *m.split(".")) + ".lean"
+        if not os.path.exists(fp):
+            continue          # Mathlib / core module
+        srcs.append(fp)
+        for line in open(fp, encoding="utf-8"):
+            mm = re.match(r"\s*(?:public\s+)?import\s+(\S+)", line)
+            if mm:
+                todo.append(mm.group(1))
     return srcs
 
 
-def grep_forbidden():
-    """forbidden tokens outside comments in any of our Lean sources"""
+def grep_forbidden(pid=None):
+    """forbidden tokens outside comments in the Lean sources `pid` depends on"""
     hits = []
-    for p in lean_sources_for(None):
+    for p in lean_sources_for(pid):
         if p.endswith("AuditTool.lean"):
             continue
         in_block = 0
@@ -304,7 +321,8 @@ def lean_check(pid, thorough=False):
             res["discharged"] += 1
     if rc != 0 or res["obligations"] == 0:
         res["failures"].append("axiom audit did not run cleanly: " + out[-500:])
-    hits = grep_forbidden()
+    hits = grep_forbidden(pid)
+    res["sources_scanned"] = len(lean_sources_for(pid))
     if hits:
         res["failures"].append("forbidden tokens: " + "; ".join(hits[:5]))
     if thorough:
